@@ -131,6 +131,62 @@ struct Cfg {
     /// (bit 0 palette, 1 trns, 2 phys, 3 gamma, 4 chrm, 5 srgb, 6 texts); ICC and EXIF have no setter
     via_info: u32,
     anim: Option<Anim>,
+    /// gamma and the eight chromaticity coordinates as `f32` bit patterns: they reach the encoder through the float
+    /// constructors `ScaledFloat::new` / `SourceChromaticities::new`; `gamma` / `chrm` then hold what the harness's own
+    /// arithmetic (`ref_scaled`) says they scale to.  Floats are outside the Lean model: it sees the scaled integers.
+    floats: Option<[u32; 9]>,
+}
+
+/// `floor(max(x, 0) * 100000)` clamped to `u32`, with the product rounded to `f32` as the documented `f32` scaling factor
+/// implies: computed in `f64` (the product of two `f32` values is exact there) and integers, not with the crate's code
+fn ref_scaled(x: f32) -> u32 {
+    if x.is_nan() || x <= 0.0 {
+        return 0;
+    }
+    let product = (x as f64 * 100000.0) as f32; // exact product, one rounding to f32
+    let fl = (product as f64).floor();
+    if fl >= 4294967296.0 { u32::MAX } else { fl as u64 as u32 }
+}
+/// the scaled integer as a float: `u32 -> f32` rounds, the quotient rounds once more (53 >= 2 * 24 + 2 bits: the
+/// detour through `f64` gives the correctly rounded `f32` quotient)
+fn ref_value(s: u32) -> f32 {
+    (((s as f64) as f32) as f64 / 100000.0) as f32
+}
+fn ref_exact(x: f32) -> bool {
+    ref_value(ref_scaled(x)) == x
+}
+fn ref_in_range(x: f32) -> bool {
+    x >= 0.0 && (((x as f64 * 100000.0) as f32) as f64).floor() <= 4294967296.0
+}
+
+/// The float constructors against the harness's own arithmetic, and the values read back as floats: what comes back
+/// is `ScaledFloat::new(x)`, and where `ScaledFloat::exact(x)` holds `into_value()` of it is `x` itself.
+fn oracle_floats(bits: &[u32; 9], s: &Snap) -> Option<Fail> {
+    let back: Vec<Option<u32>> = std::iter::once(s.gama_chunk).chain((0..8).map(|k| s.chrm_chunk.map(|c| c[k]))).collect();
+    for (k, &b) in bits.iter().enumerate() {
+        let x = f32::from_bits(b);
+        let name = if k == 0 { "gamma".to_string() } else { format!("chromaticity #{}", k - 1) };
+        let made = png::ScaledFloat::new(x);
+        if made.into_scaled() != ref_scaled(x) {
+            return oracle("roundtrip/float-scaling", format!("{}: ScaledFloat::new({:e} = bits {:08x}) is {} but floor(max(x,0)*100000) is {}", name, x, b, made.into_scaled(), ref_scaled(x)));
+        }
+        if png::ScaledFloat::exact(x) != ref_exact(x) || png::ScaledFloat::in_range(x) != ref_in_range(x) {
+            return oracle("roundtrip/float-predicates", format!("{}: exact({:e}) = {} (reference {}), in_range = {} (reference {})", name, x, png::ScaledFloat::exact(x), ref_exact(x), png::ScaledFloat::in_range(x), ref_in_range(x)));
+        }
+        note("float class", if x.is_nan() { "NaN" } else if x < 0.0 { "negative" } else if ref_scaled(x) == u32::MAX { "clamped to u32::MAX" } else if ref_exact(x) { "exact" } else { "inexact" });
+        let read = match back[k] {
+            Some(u) => png::ScaledFloat::from_scaled(u),
+            None => return oracle("roundtrip/float-missing", format!("{} was not read back", name)),
+        };
+        if read != made {
+            return oracle("roundtrip/float-value", format!("{}: wrote ScaledFloat::new({:e}) = {}, read back {}", name, x, made.into_scaled(), read.into_scaled()));
+        }
+        let v = read.into_value();
+        if v.to_bits() != ref_value(read.into_scaled()).to_bits() || (ref_exact(x) && v != x) {
+            return oracle("roundtrip/float-value", format!("{}: into_value() of the value read back is {:e}, wrote {:e} (exact: {}), reference {:e}", name, v, x, ref_exact(x), ref_value(read.into_scaled())));
+        }
+    }
+    None
 }
 
 fn opt_hex(o: &Option<Vec<u8>>) -> String {
@@ -221,7 +277,17 @@ impl Cfg {
             tail: vec![],
             via_info: 0,
             anim: None,
+            floats: None,
         }
+    }
+
+    /// gamma and chromaticities given as floats (bit patterns)
+    fn with_floats(mut self, bits: [u32; 9]) -> Cfg {
+        let v = |k: usize| ref_scaled(f32::from_bits(bits[k]));
+        self.gamma = Some(v(0));
+        self.chrm = Some([v(1), v(2), v(3), v(4), v(5), v(6), v(7), v(8)]);
+        self.floats = Some(bits);
+        self
     }
 
     fn json(&self) -> J {
@@ -242,6 +308,9 @@ impl Cfg {
             .set("head", J::Arr(self.head.iter().map(txt_json).collect()))
             .set("tail", J::Arr(self.tail.iter().map(txt_json).collect()))
             .set("via_info", J::i(self.via_info as u64));
+        if let Some(f) = &self.floats {
+            j.put("floats_f32_bits_outside_the_model", J::s(&nums(&f.map(|x| x as u64))));
+        }
         if let Some(a) = &self.anim {
             j.put(
                 "anim",
@@ -299,6 +368,19 @@ impl Cfg {
             tail: arr("tail")?,
             via_info: j.get("via_info")?.as_i64()? as u32,
             anim,
+            floats: match j.get("floats_f32_bits_outside_the_model") {
+                Some(_) => match jnums(j, "floats_f32_bits_outside_the_model")? {
+                    Some(v) if v.len() == 9 => {
+                        let mut a = [0u32; 9];
+                        for k in 0..9 {
+                            a[k] = v[k] as u32;
+                        }
+                        Some(a)
+                    }
+                    _ => return None,
+                },
+                None => None,
+            },
         })
     }
 
@@ -467,6 +549,18 @@ fn write_text<W: Write>(w: &mut png::Writer<W>, o: &TextObj) -> Result<(), png::
 /// configure an `Encoder` for `cfg` on `sink`; `Err((call, class))` if a configuration call refuses
 fn build_encoder(cfg: &Cfg, sink: SharedSink) -> Result<png::Encoder<'static, SharedSink>, (String, String)> {
     let vi = |bit: u32| cfg.via_info & (1 << bit) != 0;
+    // integers through `from_scaled`, floats through the float constructors
+    let gamma_of = |g: u32| match &cfg.floats {
+        Some(f) => png::ScaledFloat::new(f32::from_bits(f[0])),
+        None => png::ScaledFloat::from_scaled(g),
+    };
+    let chrm_of = |c: &[u32; 8]| match &cfg.floats {
+        Some(f) => {
+            let x = |k: usize| f32::from_bits(f[k]);
+            png::SourceChromaticities::new((x(1), x(2)), (x(3), x(4)), (x(5), x(6)), (x(7), x(8)))
+        }
+        None => chrm_of(c),
+    };
     let mut info = png::Info::with_size(cfg.w, cfg.h);
     info.color_type = color_of(cfg.color);
     info.bit_depth = depth_of(cfg.depth);
@@ -482,7 +576,7 @@ fn build_encoder(cfg: &Cfg, sink: SharedSink) -> Result<png::Encoder<'static, Sh
         info.pixel_dims = cfg.phys.map(|(x, y, m)| png::PixelDimensions { xppu: x, yppu: y, unit: if m { png::Unit::Meter } else { png::Unit::Unspecified } });
     }
     if vi(3) {
-        info.source_gamma = cfg.gamma.map(png::ScaledFloat::from_scaled);
+        info.source_gamma = cfg.gamma.map(gamma_of);
     }
     if vi(4) {
         info.source_chromaticities = cfg.chrm.as_ref().map(chrm_of);
@@ -515,7 +609,7 @@ fn build_encoder(cfg: &Cfg, sink: SharedSink) -> Result<png::Encoder<'static, Sh
     }
     if !vi(3) {
         if let Some(g) = cfg.gamma {
-            enc.set_source_gamma(png::ScaledFloat::from_scaled(g));
+            enc.set_source_gamma(gamma_of(g));
         }
     }
     if !vi(4) {
@@ -1288,6 +1382,11 @@ fn judge_header(cfg: &Cfg, p: &Prepared, ans: &[String]) -> Option<Fail> {
     }
     if let Some(f) = oracle_fields(cfg, &d.fin, true) {
         return Some(f);
+    }
+    if let (Some(bits), None) = (&cfg.floats, cfg.srgb) {
+        if let Some(f) = oracle_floats(bits, &d.fin) {
+            return Some(f);
+        }
     }
     // --- oracle: frame control ---
     let (mut want_frames, want_results) = expected_frames(cfg);
@@ -2414,6 +2513,48 @@ fn gen_cases(ctx: &mut Ctx) -> Vec<Case> {
             cases.push(Case::Header(c));
         }
     }
+    // --- gamma and chromaticities given as floats (`ScaledFloat::new`, `SourceChromaticities::new`) ---
+    {
+        let specials: [f32; 36] = [
+            0.0, -0.0, 1.0, 0.45455, 0.5, 2.2, 1.0 / 2.2, 0.3127, 0.329, 0.64, 0.33, 0.3, 0.6, 0.15, 0.06, 0.1, 0.2, 0.7, 1e-5, 0.99999e-5, 1e-6,
+            f32::MIN_POSITIVE, f32::EPSILON, 42949.67, 42949.672, 42949.68, 42950.0, 21474.836, 1e9, f32::MAX, f32::INFINITY, f32::NEG_INFINITY, f32::NAN, -1.0, -1e-9, 167.77216,
+        ];
+        let float_of = |rng: &mut Rng| -> f32 {
+            match rng.below(7) {
+                // a multiple of 1/100000 (a candidate for an exact round trip), small or anywhere in the u32 range
+                0 => rng.below(300_000) as f32 / 100000.0,
+                1 => gen_u32(rng) as f32 / 100000.0,
+                // just below / at / above a multiple of 1/100000
+                2 => ((rng.below(200_000) as f64 + *rng.pick(&[-1e-3, -1e-6, 0.0, 1e-6, 1e-3, 0.5])) / 100000.0) as f32,
+                // typical magnitudes, any mantissa
+                3 => f32::from_bits(0x3c00_0000 + rng.below(0x0400_0000) as u32),
+                // around the clamp at u32::MAX / 100000
+                4 => 42949.0 + rng.below(2000) as f32 / 1000.0,
+                5 => *rng.pick(&specials),
+                // any bit pattern (negative, subnormal, huge, infinite, NaN)
+                _ => f32::from_bits(rng.next() as u32),
+            }
+        };
+        for (k, x) in specials.iter().enumerate() {
+            let mut bits = [0u32; 9];
+            bits[0] = x.to_bits();
+            for j in 1..9 {
+                bits[j] = specials[(k + 5 * j) % specials.len()].to_bits();
+            }
+            let mut c = Cfg::plain(2, 2, 8, 2).with_floats(bits);
+            c.via_info = [0, 1 << 3, 1 << 4, 3 << 3][k % 4];
+            cases.push(Case::Header(c));
+        }
+        for k in 0..ctx.n(400, 4000) {
+            let mut bits = [0u32; 9];
+            for b in bits.iter_mut() {
+                *b = float_of(&mut rng).to_bits();
+            }
+            let mut c = Cfg::plain(1, 1, 8, *rng.pick(&[0u8, 2, 6])).with_floats(bits);
+            c.via_info = [0, 1 << 3, 1 << 4, 3 << 3][k % 4];
+            cases.push(Case::Header(c));
+        }
+    }
     // --- combinations ---
     for _ in 0..ctx.n(1500, 15000) {
         let d = rng.range(1, 7);
@@ -2576,7 +2717,7 @@ fn size_class(n: usize) -> &'static str {
 fn record(ctx: &mut Ctx, c: &Case) {
     match c {
         Case::Header(cfg) => {
-            ctx.rep.count("case", if cfg.anim.is_some() { "animated" } else { "header" });
+            ctx.rep.count("case", if cfg.anim.is_some() { "animated" } else if cfg.floats.is_some() { "header, gamma/chromaticities as floats (floats are outside the model)" } else { "header" });
             ctx.rep.count("colour/depth", &format!("{}/{}", cfg.color, cfg.depth));
             let mut n = 0;
             let mut item = |ctx: &mut Ctx, present: bool, name: &str| {
@@ -2658,7 +2799,9 @@ pub fn run(ctx: &mut Ctx) {
         the model's header read by the real decoder; refusals (9 kinds of unrepresentable text x head/tail): error class, sink unchanged / no chunk of the item; \
         animations of 2..5 frames written through StreamWriter(s) (stream_writer / into_stream_writer, chunk buffers 5..4096, mixed with whole-image frames) \
         with all seven StreamWriter setters called before / inside / after an image's data: every frame's fcTL read back, all nine fields, vs the documented semantics and `c17 fcstream`; \
-        iTXt with a compressed payload and the flag cleared. non-trivial = at least one metadata item beyond IHDR; distinct = hash of the whole case"
+        iTXt with a compressed payload and the flag cleared; gamma and chromaticities given as floats (ScaledFloat::new / SourceChromaticities::new: multiples of 1/100000, values next to them, random mantissas, \
+        the clamp at u32::MAX/100000, negative / subnormal / infinite / NaN): the scaled integers, ScaledFloat::exact / in_range and into_value() of the values read back against the harness's own f64/integer arithmetic \
+        (floats are outside the Lean model, which is asked about the scaled integers). non-trivial = at least one metadata item beyond IHDR; distinct = hash of the whole case"
         .into();
     let pre = model::ask_one(&["c17 consts".to_string()]);
     let sub = crate_substitutes();
